@@ -220,6 +220,27 @@ REGEX = ["a", "^b$", "a|b", ".", "^$", "[ab]+", "c"]
 STRS = ["a", "b", "ab", "", 1, None, True, 1.5]
 
 
+NUM2 = [False, True, 0, 0.0, 1, 1.0, -1, -1.0, -2, -2.0, 2, 1.5]
+
+
+def h_type_num(i0: int, i1: int, t: int, kind: int):
+    """typed index slots over numerically equal values of different type, including negative numbers and zero:
+    $type / implicit equality / $in each depend on the job's own value only"""
+    assert 0 <= i0 < 12 and 0 <= i1 < 12 and 0 <= t < 12 and 0 <= kind <= 2 and part_ok(kind)
+    fresh_path()
+    v0, v1, kind = pick(NUM2, i0), pick(NUM2, i1), ci(kind, 0, 2)
+    c = corpus2(0, {"a": v0}, {"a": v1})
+    if kind == 0:
+        flt = {"a": {"$type": pick(["int", "float", "bool"], t % 3)}}
+    elif kind == 1:
+        flt = {"a": pick(NUM2, t)}
+    else:
+        flt = {"a": {"$in": [pick(NUM2, t), "zz"]}}
+    ok = agree(c, flt)
+    reached()
+    assert ok
+
+
 def h_regex(i0: int, i1: int, r: int, ns: int, lst: bool):
     assert 0 <= i0 < 8 and 0 <= i1 < 8 and 0 <= r < 7 and 0 <= ns <= 1
     fresh_path()
@@ -351,6 +372,7 @@ HARNESSES = [
     dict(name="h_in", timeout=(400, 900), parts=(5, 10)),
     dict(name="h_exists", timeout=(300, 900)),
     dict(name="h_type", timeout=(400, 900), parts=(6, 6)),
+    dict(name="h_type_num", timeout=(300, 900), parts=(3, 3)),
     dict(name="h_regex", timeout=(300, 900)),
     dict(name="h_near", timeout=(300, 900)),
     dict(name="h_logic", twin="h_logic__reach", timeout=(400, 900), parts=(10, 10)),
